@@ -1,6 +1,7 @@
 package main
 
 import (
+	"bufio"
 	"fmt"
 	"math/big"
 	"reflect"
@@ -47,7 +48,10 @@ var durPool = []string{"1ns", "1us", "1µs", "1μs", "1ms", "1s", "1m", "1h", "1
 	"-1h1m", "+1h", "1H", "1 s", " 1s", "1s ", "1s\t", "1sec", "1min", "1w", "1y", "1µ", "1 µs", "9223372036854775807ns", "9223372036854775808ns", "-9223372036854775808ns", "-9223372036854775809ns",
 	"9223372036854775.807us", "9223372036854775.808us", "9223372036854.775807ms", "9223372036.854775807s", "9223372036.854775808s", "153722867.28091293m", "153722867.28091294m", "2562047.788015215h", "2562047.79h",
 	"2562047h47m16.854775807s", "2562047h47m16.854775808s", "106751d", "0h", "0ns", "-0s", "00s", "1e3s", "1_0s", "0x10s", "1..5s", "1.5.s", "0", "1s", "1h2m3s", "-1.5s", "1", "1µs", "1us", "1μs", "100ms", "2h45m", "+3m", "1d", "", "s", ".5s", "1.s", "-0",
-	"9223372036854775807ns", "9223372036854775808ns", "2562047h", "2562048h", "1h-1m", "1ns1ns", "0.000000001s", "1e3s", " 1s"}
+	"9223372036854775807ns", "9223372036854775808ns", "2562047h", "2562048h", "1h-1m", "1ns1ns", "0.000000001s", "1e3s", " 1s",
+	// units are case-sensitive; totals that wrap; fractions with more digits than float64 or uint64 hold
+	"1H", "1M", "1S", "1MS", "1Ms", "1NS", "1US", "1µS", "1.5H", "2H45M", "9223372036854775808ns9223372036854775808ns", "4611686018427387904ns4611686018427387904ns",
+	"-4611686018427387904ns4611686018427387904ns", "0.00000000000000000000000000001h", "0.9223372036854775808h", "0.3333333333333333333333h", "1.00000000000000000000000000000000000000000001s"}
 
 // limitVals: the limits of an integer kind, one beyond, and neighbours, in several bases.
 func limitVals(bits int, signed bool) []string {
@@ -469,6 +473,12 @@ func (g *lineGen) oracle() []string {
 		}
 		seen[raw] = true
 		for _, k := range []struct{ tag, base string }{{"f32", "float32"}, {"f64", "float64"}, {"dur", "duration"}} {
+			// float values are COMPUTED by the model (Cmd.floatVal through SoftFloat.parse); only hexadecimal floats and
+			// literals with digit separators are outside that model and still come from strconv through this section
+			// and durations by the transcription of time.ParseDuration (Cmd.parseDuration): no oracle entry at all
+			if k.tag == "dur" || !strings.Contains(raw, "_") && !strings.Contains(strings.ToLower(raw), "0x") {
+				continue
+			}
 			b := baseByName(k.base)
 			v, err := b.parse(raw)
 			if err != nil {
@@ -678,7 +688,8 @@ func genAx(r *hx.Rng) string {
 // are given run-length encoded. The long line is an assignment to a string option, a value, or a positional.
 func genLongLine(r *hx.Rng) string {
 	hexs := func(s string) string { return hx.Hex([]byte(s)) }
-	total := hx.Pick(r, []int{65533, 65534, 65535, 65535, 65536, 65536, 65537, 65538, 70000, 131071, 131072, 200000})
+	const m = bufio.MaxScanTokenSize // 65536 in every toolchain so far; the model reads it from Generated/C10Facts.lean
+	total := hx.Pick(r, []int{m - 3, m - 2, m - 1, m - 1, m, m, m + 1, m + 2, m + 4464, 2*m - 1, 2 * m, 3*m + 3392})
 	term := hx.Pick(r, []string{"\n", "\r\n", ""})
 	var pre, post []string // short lines in front of and behind the long one
 	if r.Bool() {
